@@ -95,17 +95,35 @@ Definition env_de_json (bs : list N) : option (pag_version * sel) :=
   end.
 
 (* ---------- observations ---------- *)
+(* Long key lists are written compactly when they are arithmetic progressions
+   (the harness checks that the expansion is exactly the list it has):
+   KArith first step down count = first, first +/- step, ... (count keys). *)
+Inductive keys :=
+| KList (l : list N)
+| KArith (first step : N) (down : bool) (count : N).
+
+Definition expand (k : keys) : list N :=
+  match k with
+  | KList l => l
+  | KArith first step down count =>
+      map (fun i => let d := N.of_nat i * step in if down then first - d else first + d)
+          (seq 0 (N.to_nat count))
+  end.
+
 (* one page: items, token present?, the token (where recorded) *)
 Definition page_obs := (list N * bool * option str)%type.
+Definition page_raw := (keys * bool * option str)%type.
+Definition expand_page (p : page_raw) : page_obs :=
+  let '(k, b, t) := p in (expand k, b, t).
 
 Inductive scan_obs :=
-| SDone (pages : list page_obs)              (* ended on a page without token *)
-| SFailed (status : N) (pages : list page_obs)   (* a request was not answered 200 (0: no response) *)
-| SRunaway (pages : list page_obs).          (* still a token after |coll| + 2 requests *)
+| SDone (pages : list page_raw)              (* ended on a page without token *)
+| SFailed (status : N) (pages : list page_raw)   (* a request was not answered 200 (0: no response) *)
+| SRunaway (pages : list page_raw).          (* still a token after |coll| + 2 requests *)
 
 Inductive c15case :=
-| CScan (o : order) (coll : list N) (lim : option N) (obs : scan_obs)
-| CScanGrid (o : order) (coll : list N) (rows : list (option N * scan_obs)).
+| CScan (o : order) (coll : keys) (lim : option N) (obs : scan_obs)
+| CScanGrid (o : order) (coll : keys) (rows : list (option N * scan_obs)).
 
 (* ---------- the property statement, on the observation alone ---------- *)
 Definition page_spec (eff : N) (p : page_obs) : bool :=
@@ -115,7 +133,8 @@ Definition page_spec (eff : N) (p : page_obs) : bool :=
 
 Definition spec_scan (o : order) (coll : list N) (lim : option N) (obs : scan_obs) : bool :=
   match obs with
-  | SDone pages =>
+  | SDone raw =>
+      let pages := map expand_page raw in
       let eff := page_limit lim PAGE_MAX PAGE_DEFAULT in
       list_eqb N.eqb (concat (map (fun p : page_obs => fst (fst p)) pages)) (view o coll)
       && forallb (page_spec eff) pages
@@ -149,13 +168,14 @@ Definition judge_scan (o : order) (coll : list N) (lim : option N) (obs : scan_o
   if negb (wf_case coll lim) then V_MALFORMED else
   if negb (spec_scan o coll lim obs) then V_VIOLATION else
   match model_scan o coll lim, obs with
-  | Done ms, SDone ps => if pages_agree ms ps then V_AGREE else V_DIVERGE
+  | Done ms, SDone ps => if pages_agree ms (map expand_page ps) then V_AGREE else V_DIVERGE
   | _, _ => V_DIVERGE
   end.
 
 Definition judge (c : c15case) : N :=
   match c with
-  | CScan o coll lim obs => judge_scan o coll lim obs
+  | CScan o coll lim obs => judge_scan o (expand coll) lim obs
   | CScanGrid o coll rows =>
-      worst_of (map (fun r : option N * scan_obs => judge_scan o coll (fst r) (snd r)) rows)
+      let c := expand coll in
+      worst_of (map (fun r : option N * scan_obs => judge_scan o c (fst r) (snd r)) rows)
   end.
